@@ -168,7 +168,7 @@ class Gen(object):
                 out.append(['bmref', self.name(None, 0.5), self.run()]); self.feat.add('bookmark-ref')
             elif x < 0.90 and not innote and not inlink and depth < self.maxdepth:
                 cit = r.choice([u'1', u'*', u'i', self.advstr(1), u'a<'])
-                if r.random() < 0.04:
+                if r.random() < 0.08:
                     cit = u''
                 body = [self.para(depth + 1, True)]
                 for _ in range(r.choice([0, 0, 0, 1, 2])):
@@ -200,7 +200,7 @@ class Gen(object):
     def heading(self, depth, innote=False):
         r = self.rng
         lvl = r.choice([1, 1, 2, 3, 4, 5, 6, 7, 10, 12])
-        if r.random() < 0.02:
+        if r.random() < 0.10:
             lvl = None
         if lvl is None:
             self.feat.add('h-nolevel')
